@@ -292,7 +292,12 @@ function deep_clone(x) { return JSON.parse(JSON.stringify(x)); }
 
 function revive(v) {
     // the inverse of jsonable for request tables: cells that JSON cannot carry
-    if (Array.isArray(v)) return v.map(revive);
+    if (Array.isArray(v)) {
+        let arr = v.map(revive);
+        // {__js__: 'hole'}: an empty slot of a sparse array (new Array(3), [a, , b]) - the index is not an own property, reading it gives undefined
+        for (let i = 0; i < v.length; i++) if (v[i] !== null && typeof v[i] === 'object' && v[i].__js__ === 'hole') delete arr[i];
+        return arr;
+    }
     if (v !== null && typeof v === 'object' && v.__js__ !== undefined) {
         switch (v.__js__) {
             case 'undefined': return undefined;
